@@ -2,6 +2,7 @@
 C05 — every touch starts afresh, whatever happened before.
 -/
 import Wheatley.Lemmas.Gen
+import Wheatley.Lemmas.Ctl
 namespace Wheatley.C05
 
 /-- `reset()` yields the freshly constructed generator, from **every** state (reachable or not):
@@ -26,6 +27,22 @@ theorem second_touch_fresh (kind : GenKind) (cs : Option Row) (sr : Row) (ops₁
 theorem touch_after_reset_fresh (g : Gen) (ops : List GenOp) :
     (g.reset.runOps ops).2 = ((Gen.init g.kind g.customStart g.startRow).runOps ops).2 := by
   rw [reset_is_init]
+
+/-- **Every start of the method resets the generator** — the first Go, a second Go after That's all or
+Rounds, an automatic up-down-in start: whenever the control machine starts the method at a row
+boundary, the row is generated from `reset` of the current generator, i.e. (by `reset_is_init`) from a
+freshly constructed one. -/
+theorem method_start_resets (b : Bot) (f : Bool) (c : Ctl) (h : ctlStep b.ctl (b.ctlIn f) = .ok c true) :
+    b.startNextRow f =
+      Bot.snrFinish ((b.snrPrep.resetGen).withCtl c)
+        (if !(b.checkNumberOfBells b.gen) then b.makeCalls ["Stand"] else []) ∧
+    (b.snrPrep.resetGen).gen = Gen.init b.gen.kind b.gen.customStart b.gen.startRow := by
+  constructor
+  · unfold Bot.startNextRow
+    rw [h]
+    simp
+  · have : b.snrPrep.gen = b.gen := by unfold Bot.snrPrep; split <;> rfl
+    simp [Bot.resetGen, this, reset_is_init]
 
 /-! Non-vacuity / regression witness: Grandsire Triples, 12 rows, Single, 1 row (the 2-change Single
 `3.123` is now half generated), reset.  The next touch starts with the plain first change `3`. -/
